@@ -25,8 +25,8 @@ Definition F_asAnyGen_gen : field := 14.
 Definition F_castGen_gen : field := 15.
 Definition F_castGen_typ : field := 16.
 Definition F_customGen_fn : field := 17.
-Definition F_deferredGen_g : field := 18.
-Definition F_deferredGen_fn : field := 19.
+Definition F_deferredGen_fn : field := 18.
+Definition F_deferredGen_g : field := 19.
 Definition F_filteredGen_g : field := 20.
 Definition F_filteredGen_fn : field := 21.
 Definition F_floatGen_min : field := 22.
@@ -75,10 +75,11 @@ Definition F_stringGen_minRunes : field := 64.
 Definition F_stringGen_maxRunes : field := 65.
 Definition F_stringGen_maxLen : field := 66.
 
-Definition field_names : list (field * string) := [(0, "T.tb"); (1, "T.rawLog"); (2, "T.tbLog"); (3, "T.failed"); (4, "T.parent"); (5, "T.ctx"); (6, "T.cleaning"); (7, "T.cancelCtx"); (8, "T.cleanups"); (9, "Generator.impl"); (10, "pkg.anyRuneGen"); (11, "Generator.str"); (12, "pkg.flags"); (13, "pkg.tracebackBlacklist"); (14, "asAnyGen.gen"); (15, "castGen.gen"); (16, "castGen.typ"); (17, "customGen.fn"); (18, "deferredGen.g"); (19, "deferredGen.fn"); (20, "filteredGen.g"); (21, "filteredGen.fn"); (22, "floatGen.min"); (23, "floatGen.minVal"); (24, "floatGen.max"); (25, "floatGen.maxVal"); (26, "integerGen.hasMin"); (27, "integerGen.hasMax"); (28, "integerKindInfo.signed"); (29, "integerGen.kind"); (30, "integerKindInfo.smin"); (31, "integerKindInfo.smax"); (32, "integerGen.umin"); (33, "integerKindInfo.umax"); (34, "makeGen.gen"); (35, "mapGen.key"); (36, "mapGen.minLen"); (37, "mapGen.maxLen"); (38, "mapGen.val"); (39, "mapGen.keyFn"); (40, "mappedGen.g"); (41, "mappedGen.fn"); (42, "oneOfGen.gens"); (43, "permGen.slice"); (44, "ptrGen.elem"); (45, "ptrGen.allowNil"); (46, "regexpGen.expr"); (47, "regexpGen.syn"); (48, "pkg.regexpNames"); (49, "pkg.charClassGens"); (50, "pkg.expandedTables"); (51, "pkg.anyRuneGenNoNL"); (52, "regexpGen.re"); (53, "runeGen.default_"); (54, "runeGen.runes"); (55, "runeGen.tables"); (56, "runeGen.die"); (57, "loadedDie.table"); (58, "sampledGen.slice"); (59, "sliceGen.keyFn"); (60, "sliceGen.minLen"); (61, "sliceGen.maxLen"); (62, "sliceGen.elem"); (63, "stringGen.elem"); (64, "stringGen.minRunes"); (65, "stringGen.maxRunes"); (66, "stringGen.maxLen")].
+Definition field_names : list (field * string) := [(0, "T.tb"); (1, "T.rawLog"); (2, "T.tbLog"); (3, "T.failed"); (4, "T.parent"); (5, "T.ctx"); (6, "T.cleaning"); (7, "T.cancelCtx"); (8, "T.cleanups"); (9, "Generator.impl"); (10, "pkg.anyRuneGen"); (11, "Generator.str"); (12, "pkg.flags"); (13, "pkg.tracebackBlacklist"); (14, "asAnyGen.gen"); (15, "castGen.gen"); (16, "castGen.typ"); (17, "customGen.fn"); (18, "deferredGen.fn"); (19, "deferredGen.g"); (20, "filteredGen.g"); (21, "filteredGen.fn"); (22, "floatGen.min"); (23, "floatGen.minVal"); (24, "floatGen.max"); (25, "floatGen.maxVal"); (26, "integerGen.hasMin"); (27, "integerGen.hasMax"); (28, "integerKindInfo.signed"); (29, "integerGen.kind"); (30, "integerKindInfo.smin"); (31, "integerKindInfo.smax"); (32, "integerGen.umin"); (33, "integerKindInfo.umax"); (34, "makeGen.gen"); (35, "mapGen.key"); (36, "mapGen.minLen"); (37, "mapGen.maxLen"); (38, "mapGen.val"); (39, "mapGen.keyFn"); (40, "mappedGen.g"); (41, "mappedGen.fn"); (42, "oneOfGen.gens"); (43, "permGen.slice"); (44, "ptrGen.elem"); (45, "ptrGen.allowNil"); (46, "regexpGen.expr"); (47, "regexpGen.syn"); (48, "pkg.regexpNames"); (49, "pkg.charClassGens"); (50, "pkg.expandedTables"); (51, "pkg.anyRuneGenNoNL"); (52, "regexpGen.re"); (53, "runeGen.default_"); (54, "runeGen.runes"); (55, "runeGen.tables"); (56, "runeGen.die"); (57, "loadedDie.table"); (58, "sampledGen.slice"); (59, "sliceGen.keyFn"); (60, "sliceGen.minLen"); (61, "sliceGen.maxLen"); (62, "sliceGen.elem"); (63, "stringGen.elem"); (64, "stringGen.minRunes"); (65, "stringGen.maxRunes"); (66, "stringGen.maxLen")].
 
 Definition MU_T_mu : mutex := 0.
 Definition O_Generator_strOnce : once := 0.
+Definition O_deferredGen_once : once := 1.
 
 (* written elsewhere, not accessed by the table: T.draws <- Generator.Draw (generator.go:67) *)
 
@@ -323,19 +324,27 @@ Definition g_methods : table := [
     IAcc F_Generator_str false]);
   (* generator.go:72 *)
   ("Generator.value", [
+    IOnce O_Generator_strOnce [
+      IAcc F_Generator_impl false;
+      IAcc F_pkg_anyRuneGen false;
+      ICall "g.impl.String";
+      IAcc F_Generator_str true];
     IAcc F_Generator_str false;
     ICall "t.s.beginGroup";
     IAcc F_Generator_impl false;
-    IAcc F_pkg_anyRuneGen false;
     ICall "g.impl.value";
     ICall "t.s.endGroup"]);
   (* generator.go:42 *)
   ("Generator.Draw", [
     ICall "t.tb.Helper";
+    IOnce O_Generator_strOnce [
+      IAcc F_Generator_impl false;
+      IAcc F_pkg_anyRuneGen false;
+      ICall "g.impl.String";
+      IAcc F_Generator_str true];
     IAcc F_Generator_str false;
     ICall "t.s.beginGroup";
     IAcc F_Generator_impl false;
-    IAcc F_pkg_anyRuneGen false;
     ICall "g.impl.value";
     ICall "t.s.endGroup";
     ICall "reflect.DeepEqual";
@@ -348,10 +357,14 @@ Definition g_methods : table := [
     IAcc F_pkg_flags false;
     IAcc F_pkg_flags false;
     IAcc F_pkg_flags false;
+    IOnce O_Generator_strOnce [
+      IAcc F_Generator_impl false;
+      IAcc F_pkg_anyRuneGen false;
+      ICall "g.impl.String";
+      IAcc F_Generator_str true];
     IAcc F_Generator_str false;
     ICall "t.s.beginGroup";
     IAcc F_Generator_impl false;
-    IAcc F_pkg_anyRuneGen false;
     ICall "g.impl.value";
     ICall "t.s.endGroup";
     IAcc F_pkg_tracebackBlacklist false;
@@ -361,11 +374,11 @@ Definition g_methods : table := [
   ("Generator.Filter", []);
   (* generator.go:99 *)
   ("Generator.AsAny", []);
-  (* combinators.go:283 *)
+  (* combinators.go:289 *)
   ("asAnyGen.String", [
     IAcc F_asAnyGen_gen false;
     ICall "fmt.Sprintf"]);
-  (* combinators.go:287 *)
+  (* combinators.go:293 *)
   ("asAnyGen.value", [
     IAcc F_asAnyGen_gen false;
     IAcc F_pkg_anyRuneGen false;
@@ -390,33 +403,35 @@ Definition g_methods : table := [
     IAcc F_castGen_typ false;
     ICall "reflect.ValueOf().Convert";
     ICall "reflect.ValueOf().Convert().Interface"]);
-  (* combinators.go:30 *)
+  (* combinators.go:31 *)
   ("customGen.String", [
     ICall "fmt.Sprintf"]);
-  (* combinators.go:35 *)
+  (* combinators.go:36 *)
   ("customGen.value", [
     IAcc F_pkg_flags false;
     IAcc F_pkg_flags false;
     IAcc F_customGen_fn false;
     ICall "g.fn";
+    ICall "t.failOnError";
+    ICall "t.Failed";
     ICall "t.cleanup"]);
-  (* combinators.go:69 *)
+  (* combinators.go:75 *)
   ("deferredGen.String", [
     ICall "fmt.Sprintf"]);
-  (* combinators.go:74 *)
+  (* combinators.go:80 *)
   ("deferredGen.value", [
-    IAcc F_deferredGen_g false;
-    IAcc F_deferredGen_fn false;
-    ICall "g.fn";
-    IAcc F_deferredGen_g true;
+    IOnce O_deferredGen_once [
+      IAcc F_deferredGen_fn false;
+      ICall "g.fn";
+      IAcc F_deferredGen_g true];
     IAcc F_deferredGen_g false;
     IAcc F_pkg_anyRuneGen false;
     ICall "g.g.value"]);
-  (* combinators.go:93 *)
+  (* combinators.go:99 *)
   ("filteredGen.String", [
     IAcc F_filteredGen_g false;
     ICall "fmt.Sprintf"]);
-  (* combinators.go:97 *)
+  (* combinators.go:103 *)
   ("filteredGen.value", [
     IAcc F_filteredGen_g false;
     IAcc F_pkg_anyRuneGen false;
@@ -558,45 +573,45 @@ Definition g_methods : table := [
     IAcc F_mapGen_keyFn false;
     ICall "g.keyFn";
     ICall "repeat.reject"]);
-  (* combinators.go:137 *)
+  (* combinators.go:143 *)
   ("mappedGen.String", [
     IAcc F_mappedGen_g false;
     IAcc F_mappedGen_fn false;
     ICall "fmt.Sprintf"]);
-  (* combinators.go:141 *)
+  (* combinators.go:147 *)
   ("mappedGen.value", [
     IAcc F_mappedGen_g false;
     IAcc F_pkg_anyRuneGen false;
     ICall "g.g.value";
     IAcc F_mappedGen_fn false;
     ICall "g.fn"]);
-  (* combinators.go:227 *)
+  (* combinators.go:233 *)
   ("oneOfGen.String", [
     IAcc F_oneOfGen_gens false;
     IAcc F_oneOfGen_gens false;
     ICall "g.String";
     ICall "strings.Join";
     ICall "fmt.Sprintf"]);
-  (* combinators.go:236 *)
+  (* combinators.go:242 *)
   ("oneOfGen.value", [
     IAcc F_oneOfGen_gens false;
     IAcc F_oneOfGen_gens false;
     IAcc F_pkg_anyRuneGen false;
     ICall "g.gens.value"]);
-  (* combinators.go:190 *)
+  (* combinators.go:196 *)
   ("permGen.String", [
     IAcc F_permGen_slice false;
     ICall "fmt.Sprintf"]);
-  (* combinators.go:195 *)
+  (* combinators.go:201 *)
   ("permGen.value", [
     IAcc F_permGen_slice false;
     ICall "repeat.more"]);
-  (* combinators.go:255 *)
+  (* combinators.go:261 *)
   ("ptrGen.String", [
     IAcc F_ptrGen_elem false;
     IAcc F_ptrGen_allowNil false;
     ICall "fmt.Sprintf"]);
-  (* combinators.go:259 *)
+  (* combinators.go:265 *)
   ("ptrGen.value", [
     IAcc F_ptrGen_allowNil false;
     IAcc F_ptrGen_elem false;
@@ -685,7 +700,7 @@ Definition g_methods : table := [
     IAcc F_runeGen_runes false;
     IAcc F_runeGen_tables false;
     IAcc F_runeGen_tables false]);
-  (* combinators.go:165 *)
+  (* combinators.go:171 *)
   ("sampledGen.String", [
     IAcc F_sampledGen_slice false;
     IAcc F_sampledGen_slice false;
@@ -693,7 +708,7 @@ Definition g_methods : table := [
     IAcc F_sampledGen_slice false;
     IAcc F_sampledGen_slice false;
     ICall "fmt.Sprintf"]);
-  (* combinators.go:173 *)
+  (* combinators.go:179 *)
   ("sampledGen.value", [
     IAcc F_sampledGen_slice false;
     IAcc F_sampledGen_slice false]);
